@@ -99,6 +99,17 @@ def gen_cnr(tape, tier, max_chroms=6, size_classes=None, label="cnr", force_mirr
         n_seg = int(rng.integers(1, 5))
         bps = np.sort(rng.integers(0, n, size=n_seg - 1)) if n > 1 else np.array([], dtype=int)
         levels = rng.choice([-1.0, -0.4, 0.0, 0.0, 0.3, 0.58, 1.0], size=n_seg)
+        if n >= 40 and tape.chance(1, 6, label + ".staircase"):
+            # a staircase right at the start of the chromosome (two sharp steps within the first
+            # 16 bins) followed by further sharp steps: breakpoints that several wavelet levels see
+            early = sorted({int(rng.integers(3, 9)), int(rng.integers(9, 17))})
+            later = sorted(set(int(x) for x in rng.integers(20, n - 1, size=int(rng.integers(1, 4)))))
+            bps = np.array(early + later, dtype=int)
+            levels = np.array([float(rng.choice([1.0, -2.0, 2.0, -1.0, 0.0])) for _ in range(len(bps) + 1)])
+            for k in range(1, len(levels)):
+                if levels[k] == levels[k - 1]:
+                    levels[k] += 1.5
+            n_seg = len(levels)
         sig = np.empty(n)
         prev = 0
         for k, bp in enumerate(list(bps) + [n]):
